@@ -347,7 +347,8 @@ func (r *Runtime) arrayproto_slice(call FunctionCall) Value {
 	}
 
 	a := arraySpeciesCreate(o, count)
-	if src := r.checkStdArrayObj(o); src != nil {
+	// the length check makes sure that the array has not been modified since start and count were calculated
+	if src := r.checkStdArrayObj(o); src != nil && int64(len(src.values)) == length {
 		if dst := r.checkStdArrayObjWithProto(a); dst != nil {
 			values := make([]Value, count)
 			copy(values, src.values[start:])
@@ -365,6 +366,7 @@ func (r *Runtime) arrayproto_slice(call FunctionCall) Value {
 		start++
 		n++
 	}
+	a.self.setOwnStr("length", intToValue(n), true)
 	return a
 }
 
@@ -440,46 +442,45 @@ func (r *Runtime) arrayproto_splice(call FunctionCall) Value {
 		panic(r.NewTypeError("Invalid array length"))
 	}
 	a := arraySpeciesCreate(o, actualDeleteCount)
-	var src, dst *arrayObject
 	// The fast path is only taken if both the source and the destination are standard arrays, so that nothing
-	// below can run any user code, and if the source still has the length all the indexes were calculated for
+	// in it can run any user code, and if the source still has the length all the indexes were calculated for
 	// (converting the arguments and creating the destination could have modified it).
-	if a != o {
-		if src = r.checkStdArrayObj(o); src != nil && int64(src.length) == length {
-			dst = r.checkStdArrayObjWithProto(a)
+	fast := false
+	if src := r.checkStdArrayObj(o); src != nil && a != o && int64(src.length) == length {
+		if dst := r.checkStdArrayObjWithProto(a); dst != nil {
+			deleted := make([]Value, actualDeleteCount)
+			copy(deleted, src.values[actualStart:])
+			setArrayValues(dst, deleted)
+			var values []Value
+			if itemCount < actualDeleteCount {
+				values = src.values
+				copy(values[actualStart+itemCount:], values[actualStart+actualDeleteCount:])
+				tail := values[newLength:]
+				for k := range tail {
+					tail[k] = nil
+				}
+				values = values[:newLength]
+			} else if itemCount > actualDeleteCount {
+				if int64(cap(src.values)) >= newLength {
+					values = src.values[:newLength]
+					copy(values[actualStart+itemCount:], values[actualStart+actualDeleteCount:length])
+				} else {
+					values = make([]Value, newLength)
+					copy(values, src.values[:actualStart])
+					copy(values[actualStart+itemCount:], src.values[actualStart+actualDeleteCount:])
+				}
+			} else {
+				values = src.values
+			}
+			if itemCount > 0 {
+				copy(values[actualStart:], call.Arguments[2:])
+			}
+			src.values = values
+			src.objCount = len(values)
+			fast = true
 		}
 	}
-	if dst != nil {
-		deleted := make([]Value, actualDeleteCount)
-		copy(deleted, src.values[actualStart:])
-		setArrayValues(dst, deleted)
-		var values []Value
-		if itemCount < actualDeleteCount {
-			values = src.values
-			copy(values[actualStart+itemCount:], values[actualStart+actualDeleteCount:])
-			tail := values[newLength:]
-			for k := range tail {
-				tail[k] = nil
-			}
-			values = values[:newLength]
-		} else if itemCount > actualDeleteCount {
-			if int64(cap(src.values)) >= newLength {
-				values = src.values[:newLength]
-				copy(values[actualStart+itemCount:], values[actualStart+actualDeleteCount:length])
-			} else {
-				values = make([]Value, newLength)
-				copy(values, src.values[:actualStart])
-				copy(values[actualStart+itemCount:], src.values[actualStart+actualDeleteCount:])
-			}
-		} else {
-			values = src.values
-		}
-		if itemCount > 0 {
-			copy(values[actualStart:], call.Arguments[2:])
-		}
-		src.values = values
-		src.objCount = len(values)
-	} else {
+	if !fast {
 		for k := int64(0); k < actualDeleteCount; k++ {
 			from := valueInt(k + actualStart)
 			if o.self.hasPropertyIdx(from) {
@@ -603,7 +604,7 @@ func (r *Runtime) arrayproto_indexOf(call FunctionCall) Value {
 
 	searchElement := call.Argument(0)
 
-	if arr := r.checkStdArrayObj(o); arr != nil {
+	if arr := r.checkStdArrayObj(o); arr != nil && int64(len(arr.values)) == length {
 		for i, val := range arr.values[n:] {
 			if searchElement.StrictEquals(val) {
 				return intToValue(n + int64(i))
@@ -647,7 +648,7 @@ func (r *Runtime) arrayproto_includes(call FunctionCall) Value {
 		searchElement = _positiveZero
 	}
 
-	if arr := r.checkStdArrayObj(o); arr != nil {
+	if arr := r.checkStdArrayObj(o); arr != nil && int64(len(arr.values)) == length {
 		for _, val := range arr.values[n:] {
 			if searchElement.SameAs(val) {
 				return valueTrue
@@ -689,7 +690,7 @@ func (r *Runtime) arrayproto_lastIndexOf(call FunctionCall) Value {
 
 	searchElement := call.Argument(0)
 
-	if arr := r.checkStdArrayObj(o); arr != nil {
+	if arr := r.checkStdArrayObj(o); arr != nil && int64(len(arr.values)) == length {
 		vals := arr.values
 		for k := fromIndex; k >= 0; k-- {
 			if v := vals[k]; v != nil && searchElement.StrictEquals(v) {
@@ -1053,7 +1054,7 @@ func (r *Runtime) arrayproto_copyWithin(call FunctionCall) Value {
 	}
 	final := relToIdx(relEnd, l)
 	count := min(final-from, l-to)
-	if arr := r.checkStdArrayObj(o); arr != nil {
+	if arr := r.checkStdArrayObj(o); arr != nil && int64(len(arr.values)) == l {
 		if count > 0 {
 			copy(arr.values[to:to+count], arr.values[from:from+count])
 		}
@@ -1096,7 +1097,7 @@ func (r *Runtime) arrayproto_fill(call FunctionCall) Value {
 	}
 	final := relToIdx(relEnd, l)
 	value := call.Argument(0)
-	if arr := r.checkStdArrayObj(o); arr != nil {
+	if arr := r.checkStdArrayObj(o); arr != nil && int64(len(arr.values)) == l {
 		for ; k < final; k++ {
 			arr.values[k] = value
 		}
@@ -1372,7 +1373,7 @@ func (r *Runtime) arrayproto_toSpliced(call FunctionCall) Value {
 		panic(r.NewTypeError("Invalid array length"))
 	}
 
-	if src := r.checkStdArrayObj(o); src != nil {
+	if src := r.checkStdArrayObj(o); src != nil && int64(len(src.values)) == length {
 		var values []Value
 		if itemCount == actualSkipCount {
 			values = make([]Value, len(src.values))
